@@ -228,7 +228,20 @@ def _lock():
                     text='threading.Lock: with-statement acquires and always releases; held is a ghost flag')
 
 
+def new_deque(ex, a, k):
+    """collections.deque([iterable]): modelled as a list (maxlen is not modelled)"""
+    if k.get('maxlen') is not None and k.get('maxlen') is not NONE or len(a) > 1:
+        raise Undecided('collections.deque with maxlen')
+    if not a:
+        return ex.alloc(HList([]))
+    items = ex.interp.iter_concrete(a[0])
+    if items is not None:
+        return ex.alloc(HList(list(items)))
+    return ex.alloc(HSymList(ex.interp.as_seq(a[0])))
+
+
 def install_common(ex):
+    ex.ext_models['collections.deque'] = new_deque
     ex.abs_classes['Lock'] = _lock()
     ex.ext_models['copy.copy'] = copy_copy
     ex.ext_models['copy.deepcopy'] = copy_deepcopy
